@@ -268,6 +268,15 @@ fn rand_bits(rng: &mut Rng, bits: &[u32]) -> u64 {
 
 pub fn leaf_flags(rng: &mut Rng, szc: u64) -> u64 {
     let mut v = 1 | rand_bits(rng, &LEAF_BITS_4K);
+    // A leaf without PRESENT (a swapped-out / reserved page: the slot is occupied, the address is not mapped).
+    // `map_to` and `update_flags` accept such flags; translation, unmap and the hardware see "not mapped", while
+    // the slot still counts as used (PageAlreadyMapped, and its table is not empty for clean_up).
+    if rng.chance(1, 10) {
+        v &= !1;
+        if v == 0 {
+            v = 2; // an all-zero entry (frame 0, no flags) is the encoding of "unused": nothing to observe
+        }
+    }
     if szc != 0 {
         v &= !(1 << 7); // HUGE is added by the mapper; bit 12 is the PAT bit of huge leaves
         if rng.chance(1, 4) {
